@@ -206,6 +206,7 @@ func RunOne(p *Prop, seed int64, idx int, tier string, rec map[string][]uint32, 
 				case *Violation:
 					res.Viol = v
 				case schedAbort:
+				case runAbort:
 				default:
 					res.Viol = c.panicViolation(c.Op, r)
 				}
